@@ -6,10 +6,11 @@ import builtins
 import importlib
 from fractions import Fraction
 from decimal import Decimal
-from typing import Any, List, Dict, Callable
+from typing import Any, List, Dict, Callable, Optional
 
 
 ZERO_PARAMS: List[str] = ['args', 'kwargs']
+RESERVED_KEYS: List[str] = ['type', 'class', 'callable']
 
 
 def simple_serialization(class_: type) -> type:
@@ -70,40 +71,109 @@ def factory_serialization(factory: Callable, **params: Any) -> Callable:
 
 
 def serialize_value(value: Any) -> Any:
+    """Convert a value to its JSON-ready form.
+
+    :raises ValueError: If the value cannot be saved in a form that
+        :func:`deserialize_value` loads back as an equal value.
+    """
     if hasattr(value, 'to_dict'):
-        return value.to_dict()
+        return _loadable_class_def(value.to_dict(), value)
     elif isinstance(value, tuple(ATOMIC_TYPES)):
         return value
     elif type(value) in CONVERTIBLE_TYPES:
         return CONVERTIBLE_TYPES[type(value)](value)
-    elif hasattr(value, '__iter__'):
-        if hasattr(value, 'items') and hasattr(value, 'keys'):
-            if all(isinstance(key, str) for key in value.keys()):
-                return {
-                    key: serialize_value(val)
-                    for key, val in value.items()
-                }
-            else:
-                return {
-                    'type': 'dict',
-                    'keys': [serialize_value(key) for key in value.keys()],
-                    'values': [serialize_value(val) for val in value.values()]
-                }
+    elif type(value) is dict:
+        if all(isinstance(key, str) for key in value.keys()):
+            out_dict = {
+                key: serialize_value(val)
+                for key, val in value.items()
+            }
+            reserved = reserved_key(out_dict)
+            if reserved is not None:
+                raise ValueError(
+                    f'cannot serialize {value!r} to dict format: '
+                    f'the {reserved!r} item would be interpreted on loading'
+                )
+            return out_dict
         else:
-            return [serialize_value(val) for val in value]
+            return {
+                'type': 'dict',
+                'keys': [serialize_value(key) for key in value.keys()],
+                'values': [serialize_value(val) for val in value.values()]
+            }
+    elif type(value) is list:
+        return [serialize_value(val) for val in value]
     elif hasattr(value, '__call__'):
-        return {'callable': '.'.join((value.__module__, value.__name__))}
+        name = '.'.join((
+            str(getattr(value, '__module__', None)),
+            str(getattr(value, '__name__', None)),
+        ))
+        if not _is_found_as(name, value):
+            raise ValueError(
+                f'cannot serialize {value!r} to dict format: '
+                f'it cannot be loaded by the name {name}'
+            )
+        return {'callable': name}
+    elif hasattr(value, '__iter__'):
+        raise ValueError(
+            f'cannot serialize {value!r} to dict format: only dict, list, '
+            f'tuple and frozenset containers are loaded back as themselves'
+        )
     else:
         raise ValueError(f'cannot serialize {value!r} to dict format')
 
 
+def _is_found_as(name: str, value: Any) -> bool:
+    """Whether the scoped name is one that loads as the given object."""
+    if not is_scoped_identifier(name):
+        return False
+    try:
+        return get_object(name) is value
+    except (ImportError, AttributeError):
+        return False
+
+
+def _loadable_class_def(clsdef: Any, value: Any) -> Any:
+    """Check that the output of to_dict() loads as an object like value."""
+    if not isinstance(clsdef, dict) or 'class' not in clsdef:
+        # to_dict() has passed on the saved form of something else
+        return clsdef
+    name = clsdef['class']
+    problem = None
+    if reserved_key(clsdef) != 'class':
+        problem = 'it would not be read as a class definition on loading'
+    else:
+        try:
+            cls = get_object(name)
+        except (ImportError, AttributeError):
+            cls = None
+        if isinstance(cls, type) and cls is not type(value):
+            cls = None
+        if not callable(cls):
+            problem = f'its class cannot be loaded by the name {name}'
+        elif not hasattr(cls, 'from_dict'):
+            params = dict.fromkeys(key for key in clsdef if key != 'class')
+            try:
+                inspect.signature(cls).bind(**params)
+            except TypeError as err:
+                problem = f'{name} cannot be called with its parameters: {err}'
+            except ValueError:
+                pass    # the signature is not known
+    if problem is not None:
+        raise ValueError(
+            f'cannot serialize {value!r} to dict format: {problem}'
+        )
+    return clsdef
+
+
 def deserialize_value(value: Any) -> Any:
     if isinstance(value, dict):
-        if 'type' in value and is_scoped_identifier(value['type']):
+        reserved = reserved_key(value)
+        if reserved == 'type':
             return deserialize_typed(value)
-        elif 'class' in value and is_scoped_identifier(value['class']):
+        elif reserved == 'class':
             return deserialize_class(value)
-        elif 'callable' in value and is_scoped_identifier(value['callable']):
+        elif reserved == 'callable':
             return get_object(value['callable'])
         else:
             return {key: deserialize_value(val) for key, val in value.items()}
@@ -189,6 +259,19 @@ def to_dict(obj: Any) -> Dict[str, Any]:
         decorator).
     """
     return serialize_value(obj)
+
+
+def reserved_key(value: Dict[str, Any]) -> Optional[str]:
+    """Return the key by which a dictionary is interpreted on loading.
+
+    A dictionary with an identifier under 'type', 'class' or 'callable' (in
+    this order of precedence) is loaded as a typed value, an object or
+    a function; any other dictionary (None is returned) as a dictionary.
+    """
+    for key in RESERVED_KEYS:
+        if key in value and is_scoped_identifier(value[key]):
+            return key
+    return None
 
 
 def is_scoped_identifier(value: Any):
